@@ -3,6 +3,7 @@ import RichModel.Lemmas.ThemeHist
 import RichModel.Lemmas.ThemeConfig
 import RichModel.Lemmas.ThemeConfigTotal
 import RichModel.Lemmas.ThemeThreads
+import RichModel.Lemmas.ThemeCtx
 import RichModel.Gen.DefaultStyleNames
 /-!
 # C20 — named styles resolve through a well-behaved theme stack
@@ -207,6 +208,74 @@ theorem trace_is_run (f : Bool) (h : List (Op σ)) (st : Stack σ) :
     ((traceOps f h st).1, (traceOps f h st).2.1) = runOps f h st :=
   traceOps_run f h st
 
+/-! ## `ThemeContext` objects with identity (re-entered, re-used) -/
+
+/-- **ctx_objects_are_stateless**: a history in which the results of `console.use_theme(…)` are kept as
+objects and entered by identity — the same object again while it is active (`with c: with c: …`),
+again after it was left, left by an exception from the inner of two uses — is, statement for statement,
+the history in which every `with c:` is a `with console.use_theme(c.theme, inherit=c.inherit):` on a fresh
+object: `__enter__` reads only the immutable fields, `__exit__` pops whatever object it is called on.  Both
+variants of `__enter__`.  So every theorem about `runOps` transfers (the next three). -/
+theorem ctx_objects_are_stateless (f : Bool) (env : CtxEnv σ) (h : List (COp σ)) (st : Stack σ) :
+    runCOps f env h st = runOps f (eraseOps env h) st :=
+  runCOps_erase f env h st
+
+/-- …hence every such history (any re-entry pattern, unbalanced pops, exceptions) ends on the stack the frame
+specification computes: a context object entered `k` times contributes `k` frames. -/
+theorem ctx_history_refines (base : Dict σ) (env : CtxEnv σ) (h : List (COp σ)) (fs : List (Frame σ)) :
+    runCOps false env h (stackOf base fs) =
+      (stackOf base (specOps (eraseOps env h) fs).1, (specOps (eraseOps env h) fs).2) := by
+  rw [ctx_objects_are_stateless, history_refines]
+
+/-- …and every balanced one restores the whole stack — entries and the bound lookup — however often and however
+deeply its context objects are re-entered. -/
+theorem ctx_balanced_restores (f : Bool) (env : CtxEnv σ) (h : List (COp σ)) (c : Bool)
+    (hb : Bal (eraseOps env h) c) (st : Stack σ) (hwf : st.WF) :
+    runCOps f env h st = (st, if c then .normal else .raised .userError) := by
+  rw [ctx_objects_are_stateless]
+  exact balanced_restores f _ c hb st hwf
+
+/-- The motivating shape: one object `c`, entered, entered again inside, around any balanced body (which may end by
+an exception: then both `__exit__`s run on the way out), and — when the body completes — used a third time
+afterwards: every theme pushed is popped again, every lookup is what it was. -/
+theorem ctx_nested_reentry_restores (f : Bool) (env : CtxEnv σ) (c : Nat) (body : List (COp σ)) (b : Bool)
+    (hb : Bal (eraseOps env body) b) (st : Stack σ) (hwf : st.WF) (parse : Parse σ) (name : NS σ)
+    (default : Option (NS σ)) :
+    runCOps f env [.withC c [.withC c body], .withC c []] st = (st, if b then .normal else .raised .userError) ∧
+    getStyle parse (runCOps f env [.withC c [.withC c body], .withC c []] st).1 name default =
+      getStyle parse st name default := by
+  have h : runCOps f env [.withC c [.withC c body], .withC c []] st = (st, if b then .normal else .raised .userError) := by
+    apply ctx_balanced_restores f env _ b _ st hwf
+    cases b with
+    | true =>
+      simp only [eraseOps, eraseOp]
+      exact Bal.useOk (Bal.useOk hb Bal.nil) (Bal.useOk Bal.nil Bal.nil)
+    | false =>
+      simp only [eraseOps, eraseOp]
+      exact Bal.useAbort _ (Bal.useAbort _ hb)
+  exact ⟨h, by rw [h]⟩
+
+/-- The same for `__enter__` / `__exit__` called by hand: `n` enters of any context objects (the same one as often
+as one likes) followed by `n` exits — on whichever objects, in whatever order: `__exit__` only pops — leave the stack
+exactly as it was. -/
+theorem ctx_enters_exits_restore (f : Bool) (env : CtxEnv σ) (cs ds : List Nat) (hl : ds.length = cs.length)
+    (st : Stack σ) (hwf : st.WF) :
+    runF f ((cs.map CStep.enterC ++ ds.map CStep.exitC).map (CStep.toF env)) st = st :=
+  runF_enters_exits f env cs ds st hwf hl
+
+/-- What is *not* the code (documentation of the class of change the re-entry histories of the harness are there
+to catch): a `ThemeContext` that remembers "I am entered" and pops only then.  Entered twice and left twice, the
+code (first line) is back on the base theme; the flag variant (`runG`) skips the second pop, so the theme stays pushed
+for good — `a` keeps resolving to the pushed style `2`. -/
+theorem ctx_entered_flag_would_break_reentry :
+    let env : CtxEnv Nat := fun _ => ⟨⟨[(['a'], 2)]⟩, true⟩
+    let st0 : Stack Nat := Stack.init ⟨[(['a'], 1)]⟩
+    let w : List CStep := [.enterC 0, .enterC 0, .exitC 0, .exitC 0]
+    runF false (w.map (CStep.toF env)) st0 = st0 ∧
+    (runG env w (st0, [])).1.get ['a'] = some 2 ∧
+    (runG env w (st0, [])).1.entries.length = 2 := by
+  decide
+
 /-! ## outside mutation of the base theme's dict (documented non-finding) -/
 
 /-- `ThemeStack.__init__` keeps `theme.styles` itself as `_entries[0]`; pushed entries are fresh
@@ -327,6 +396,18 @@ theorem config_roundtrip_inherit (lower interp : Bool) (defaults : Dict σ) (par
   | some s => simp
   | none => simpa using hdef n h
 
+/-- The round trip for the parser that keeps the case of names (`lower = false`, the variant that would repair the
+known finding `config-name-case`) with interpolation off as in /repo: names of any case — `Foo`, `A` next to `a` —
+read back unchanged; the only conditions are the ones a config file imposes on any name. -/
+theorem config_roundtrip_keeps_case (defaults : Dict σ) (parse : Parse σ)
+    (str : σ → List Char) (t : Theme σ) (hwf : WFD t.styles)
+    (hnames : ∀ p ∈ t.styles, safeName false p.1 = true)
+    (hvalues : ∀ p ∈ t.styles, safeValue false (str p.2) = true)
+    (hparse : ∀ p ∈ t.styles, parse (str p.2) = .ok p.2) :
+    ∃ t', fromFile defaults parse false false (Theme.config str t) false = .ok t' ∧
+      ∀ n, dget t'.styles n = dget t.styles n :=
+  config_roundtrip_model false false defaults parse str t hwf hnames hvalues hparse
+
 /-- **from_file_total**: with interpolation off (the repaired parser), for every text — any text
 when names are kept, any text without a capital sigma U+03A3 while names are lower-cased (its
 lower-casing is position dependent in CPython and outside the model) — `Theme.from_file` ends in a
@@ -418,6 +499,21 @@ theorem old_config_lowercases_names :
     cfgItems false true (render [(['F','o','o'], ['r','e','d'])]) = .ok [(['F','o','o'], ['r','e','d'])] := by
   decide
 
+/-- The known finding `config-name-case` with the parser /repo builds **now** (`lower = true`, `interp = false`):
+`Theme({'Foo': 'red'}).config` reads back with the name `foo`; a theme defining both `A` and `a` does not read back at
+all (`DuplicateOptionError`), through `Theme.from_file` as well; with `lower = false` both read back as written. -/
+theorem known_config_name_case :
+    cfgItems true false (render [(['F','o','o'], ['r','e','d'])]) = .ok [(['f','o','o'], ['r','e','d'])] ∧
+    cfgItems false false (render [(['F','o','o'], ['r','e','d'])]) = .ok [(['F','o','o'], ['r','e','d'])] ∧
+    cfgItems true false (render [(['A'], ['r','e','d']), (['a'], ['d','i','m'])]) = .err .duplicateOption ∧
+    cfgItems false false (render [(['A'], ['r','e','d']), (['a'], ['d','i','m'])]) =
+      .ok [(['A'], ['r','e','d']), (['a'], ['d','i','m'])] ∧
+    fromFile (σ := Nat) [] (fun _ => .ok 7) true false
+      (Theme.config (fun _ => ['r','e','d']) ⟨[(['a'], 7), (['A'], 7)]⟩) false = .err (.cfg .duplicateOption) ∧
+    fromFile (σ := Nat) [] (fun _ => .ok 7) false false
+      (Theme.config (fun _ => ['r','e','d']) ⟨[(['a'], 7), (['A'], 7)]⟩) false = .ok ⟨[(['A'], 7), (['a'], 7)]⟩ := by
+  decide
+
 /-! ## Non-vacuity: the hypotheses are met by concrete non-trivial values -/
 
 /-- a balanced history with nesting, a non-inheriting block and an abort by exception -/
@@ -445,5 +541,13 @@ example : safeValue true ['b','o','l','d',' ','r','e','d'] = true ∧ safeValue 
     ∧ safeValue false ['5','0','%'] = true := by decide
 example : Theme.config (σ := Nat) (fun _ => ['r','e','d']) ⟨[(['b'], 1), (['a'], 2)]⟩ =
     "[styles]\na = red\nb = red".toList := by decide
+
+/-- a history that re-enters one context object while it is active, leaves the inner use by an exception, and is
+balanced after erasure (object 0 = `use_theme({b: 2}, inherit=False)`) -/
+example : Bal (σ := Nat) (eraseOps (fun _ => ⟨⟨[(['b'], 2)]⟩, false⟩)
+    [.withC 0 [.withC 0 [.push ⟨[]⟩ true, .pop]], .withC 0 [.withC 0 [.raise]]]) false := by
+  simp only [eraseOps, eraseOp]
+  exact Bal.useOk (Bal.useOk (Bal.pushPop (mid := []) Bal.nil Bal.nil) Bal.nil) (Bal.useAbort _ (Bal.useAbort _ (Bal.raise _)))
+example : safeName false ['F','o','o'] = true ∧ safeName false ['A'] = true ∧ safeValue false ['5','0','%'] = true := by decide
 
 end RichModel.C20
